@@ -355,3 +355,11 @@ Proof.
   end.
 Qed.
 Print Assumptions rules_linked_l.
+
+(* ------------------------------------------------------------------ bounds of the multipass byte code *)
+Lemma bounds_ok_l : forall l v b, bounds_ok l = true -> In (v, b) l -> 0 <= v < b.
+Proof.
+  intros l v b H Hin. unfold bounds_ok in H. rewrite forallb_forall in H. specialize (H (v, b) Hin).
+  cbn [fst snd] in H. apply andb_prop in H. destruct H as [H1 H2].
+  apply Z.leb_le in H1. apply Z.ltb_lt in H2. split; assumption.
+Qed.
